@@ -663,9 +663,9 @@ func init() {
 	})
 	register(&Prop{
 		ID: "C04", Level: "exploration", Batch: 16, PerCaseTimeout: 70 * time.Second,
-		Rule:  "case i = PRNG(seed,i) from the 'final' profile (continuous checks slower than sequences, failing stages of every kind, every 5th case the slow-survivor template with Concurrency>=2 and >=C+2 sequences, every 5th case the busy-cont template: few long sequences all launched at once next to fast continuous checks, so that several passing runs go unobserved and one run is in flight when the scope ends); observed: plan returned by Wait, plugin/vault events after Wait, plan re-read after quiescence + grace; distinct by final-status hash",
+		Rule:  "case i = PRNG(seed,i) from the 'final' profile (continuous checks slower than sequences, failing stages of every kind, every 5th case the slow-survivor template with Concurrency>=2 and >=C+2 sequences, every 5th case the busy-cont template: few long sequences all launched at once next to fast continuous checks, so that several passing runs go unobserved and one run is in flight when the scope ends); observed: plan returned by Wait, plugin/vault events after Wait, plan re-read after quiescence + grace; every 25th case explores every crash point of a plan with failing stages (pre-checks next to the first continuous run / a failure while sequences execute / random) and applies the consistency rules to the plan Wait returns in the process that resumed it; distinct by final-status hash",
 		Cases: nCases(300, 6000),
-		Run: engineRun("C04", finalProfile, func(c *eng.Case, run *eng.Run, pr *eng.PlanRun, t *oracle.Trace, res *CaseResult) {
+		Run: everyNth(25, c04Crash, engineRun("C04", finalProfile, func(c *eng.Case, run *eng.Run, pr *eng.PlanRun, t *oracle.Trace, res *CaseResult) {
 			res.Viols = append(res.Viols, oracle.C04(pr.Spec, t, pr.P0, pr.P1, run.GraceSeq)...)
 			if pr.P0.Status("P") == spec.Failed {
 				res.Counters["failed_plans"]++
@@ -673,7 +673,7 @@ func init() {
 			} else {
 				res.Counters["completed_plans"]++
 			}
-		}, true),
+		}, true)),
 		RaceAttr:      raceHas("runContChecks", "runChecksOnce", "writeEverything", "finalStates", "sm.(*States).End"),
 		MinNontrivial: 30,
 		Assumptions:   []string{"'never changes afterwards' is observed until all plugins are idle and the log has been stable for the grace window (40 ms), not forever", "when two stages failed, either is accepted as the failure reason"},
